@@ -178,8 +178,8 @@ def corpus():
     prog({"q": q}, [asg(["q"], NEW), asg(["q"], NEW), ex(C("discard", P(["q"])))], ["overwrite"])
     prog({"q": {"ty": A.Q, "kind": "borrowed"}}, [ex(C("measure", P(["q"])))], ["borrowed_moved"], ["q"])
     prog({"q": {"ty": A.Q, "kind": "borrowed"}}, [asg(["q"], NEW)], ["borrow_shadowed", "overwrite"], ["q"])
-    prog({"s": {"ty": A.S, "kind": "borrowed"}}, [ex(C("discard", P(["s", "a"])))], ["borrowed_unrestored"], ["s"])
-    prog({"s": {"ty": A.S, "kind": "borrowed"}}, [ex(C("discard", P(["s", "a"]))), asg(["s", "a"], NEW)], [], ["s"])
+    prog({"sv": {"ty": A.S, "kind": "borrowed"}}, [ex(C("discard", P(["sv", "a"])))], ["borrowed_unrestored"], ["sv"])
+    prog({"sv": {"ty": A.S, "kind": "borrowed"}}, [ex(C("discard", P(["sv", "a"]))), asg(["sv", "a"], NEW)], [], ["sv"])
     prog({"q": q}, [asg(["q"], NEW), ex(C("cx", P(["q"]), P(["q"]))), ex(C("discard", P(["q"])))], ["use_moved"])
     prog({"q": q}, [asg(["q"], NEW), asg(["q"], C("fm", P(["q"]), NEW)), ex(C("discard", P(["q"])))], ["overwrite"])
     prog({"q": q}, [ex(C("h", NEW))], ["temp_borrow"])
@@ -194,6 +194,12 @@ def corpus():
 
 
 def selftest(ctx):
+    # 0. generated variable names must not resolve to globals of the prelude (e.g. the gates `s`, `t`)
+    import gp
+    ns = set(gp.load("").__dict__)
+    mine = set(G.QVARS) | {n for n, _ in G.AGGVARS} | {"m", "a", "i", "j", "f", "g", "xs", "o", "pr", "k0", "k1", "k2", "b"}
+    if mine & ns:
+        raise lib.Machinery(f"generator variable names collide with the prelude: {sorted(mine & ns)}")
     # 1. the specification classifies the fixed corpus as documented, and /repo agrees with it
     cs = corpus()
     ev = R.evaluate(ctx, cs, tag="corpus")
